@@ -4,6 +4,7 @@ import (
 	"encoding/json"
 	"fmt"
 	"math/rand"
+	"os"
 	"strings"
 	"sync"
 	"time"
@@ -109,13 +110,19 @@ func buildCorpus(r *core.Run, cfg corpusCfg) (*Corpus, error) {
 		rnd = append(rnd, schema.Named{Name: fmt.Sprintf("random/%d/%d", r.Seed, i), S: g.Random()})
 	}
 	rnd = append(rnd, cfg.Extra...)
-	if !cfg.NoExtremes {
-		rnd = append(rnd, schema.ExtremesFamily()...)
-	}
 	for i, nm := range rnd {
 		o := cfg.Opts[i%len(cfg.Opts)]
 		n++
 		pends = append(pends, pend{&GenPkg{Name: fmt.Sprintf("c%04d", n), Label: nm.Name, S: nm.S, Opts: o}, nil, nm.Name})
+	}
+	if !cfg.NoExtremes {
+		// the extremes family runs under every option row of the configuration
+		for _, nm := range schema.ExtremesFamily() {
+			for _, o := range cfg.Opts {
+				n++
+				pends = append(pends, pend{&GenPkg{Name: fmt.Sprintf("c%04d", n), Label: nm.Name, S: nm.S, Opts: o}, nil, nm.Name})
+			}
+		}
 	}
 	mod, err := newMod(cfg.Name)
 	if err != nil {
@@ -273,7 +280,11 @@ func (c *Corpus) forEachType(asan bool, f func(ch *core.Child, t *CType)) {
 			}
 		}()
 	}
+	only := os.Getenv("VERIF_TYPE_FILTER") // triage only: substring of the type label
 	for _, t := range c.Types {
+		if only != "" && !strings.Contains(t.Label, only) {
+			continue
+		}
 		next <- t
 	}
 	close(next)
